@@ -19,6 +19,7 @@ def parseEnv : List String → Option Op
     | some k, some i => some (Op.arrive k i)
     | _, _ => none
   | ["close", k] => k.toNat?.map Op.close
+  | ["exhaust"] => some Op.exhaust
   | _ => none
 
 /-- run the receiver until it returns; fuel bounds the loop (each section strictly progresses) -/
